@@ -24,6 +24,9 @@ META = {
 NAMES = ["Ann", "Bob Lee", 'O"Neil', "Dee, Jr.", "é", "x y z", "UWI", "undervote", "Zoë-Ann", "it's", "semi;colon", "pipe|bar"]
 
 
+NA_TOKENS = ["NA", "None", "null", "nan", "N/A", "NULL", "NaN", "n/a", "<NA>", "#N/A"]
+
+
 def workfile(name):
     return os.path.join(env.workdir(), name)
 
@@ -37,6 +40,8 @@ def gen_csv_case(rnd, large=False):
         ncol = rnd.randint(10, 14)
         nrow = rnd.randint(80, 250)
         cands = rnd.sample(NAMES + ["Cand %d" % i for i in range(1, 13)], rnd.randint(8, 12))
+    if not large and rnd.random() < 0.04:
+        cands = cands + [rnd.choice(NA_TOKENS[:6])]  # a candidate / write-in whose name looks like a missing-value marker
     delim = rnd.choice([",", ",", ";", "|", "\t"])
     rows = []
     for i in range(nrow):
@@ -140,23 +145,40 @@ def check_csv(ctx, case):
             ctx.fail("load_csv: the same row pattern appears as two ballots", case, {"pattern": key})
             return
         got[key] = (b.weight, b.voter_set)
-    if set(got) != set(exp):
-        ctx.fail("load_csv: ballots are not exactly the distinct row patterns of the selected rank columns in column order", case,
-                 {"kw": kw, "got": sorted(map(str, got))[:6], "exp": sorted(map(str, exp))[:6]})
+    def problem(exp):
+        if set(got) != set(exp):
+            return ("load_csv: ballots are not exactly the distinct row patterns of the selected rank columns in column order",
+                    {"kw": kw, "got": sorted(map(str, got))[:6], "exp": sorted(map(str, exp))[:6]})
+        for k in exp:
+            if got[k][0] != exp[k][0]:
+                return ("load_csv: ballot weight is not the number of rows (or the summed weight column) with that pattern",
+                        {"kw": kw, "pattern": k, "got": str(got[k][0]), "exp": str(exp[k][0])})
+            if has_id and got[k][1] != exp[k][1]:
+                return ("load_csv: voter set of a ballot is not the set of ids of its rows",
+                        {"kw": kw, "pattern": k, "got": sorted(map(str, got[k][1] or [])), "exp": sorted(exp[k][1])})
+        if p.total_ballot_wt != sum((e[0] for e in exp.values()), F(0)):
+            return ("load_csv: total weight differs from the row count / weight sum", {})
+        return None
+
+    pb = problem(exp)
+    if pb is not None:
+        # known finding csv-na-token: a cell whose text is one of pandas' default missing-value markers ("NA", "None", "null",
+        # ...) is read as an empty cell.  Recognised by mechanism: such a cell stands in a selected rank column AND the result
+        # is exactly what the table gives when those cells are blank.
+        mech = None
+        if any(r[j] in NA_TOKENS for r in rows for j in ranks):
+            exp_na = {}
+            for i, r in enumerate(rows):
+                key = tuple(r[j] if (r[j] != "" and r[j] not in NA_TOKENS) else None for j in ranks)
+                e = exp_na.setdefault(key, [F(0), set()])
+                e[0] += F(case["weights"][i]) if has_w else 1
+                e[1].add("v%d" % i)
+            if problem(exp_na) is None:
+                mech = "csv-na-token"
+        ctx.fail(pb[0], case, pb[1], mech=mech)
         return
-    for k in exp:
-        if got[k][0] != exp[k][0]:
-            ctx.fail("load_csv: ballot weight is not the number of rows (or the summed weight column) with that pattern", case,
-                     {"kw": kw, "pattern": k, "got": str(got[k][0]), "exp": str(exp[k][0])})
-            return
-        if has_id and got[k][1] != exp[k][1]:
-            ctx.fail("load_csv: voter set of a ballot is not the set of ids of its rows", case,
-                     {"kw": kw, "pattern": k, "got": sorted(map(str, got[k][1] or [])), "exp": sorted(exp[k][1])})
-            return
-    tot = sum((e[0] for e in exp.values()), F(0))
-    if p.total_ballot_wt != tot:
-        ctx.fail("load_csv: total weight differs from the row count / weight sum", case, {})
-        return
+    if any(r[j] in NA_TOKENS for r in rows for j in ranks):
+        ctx.count("tables_with_na_like_names_loaded_faithfully")
     # the same file and the same argument objects once more: same profile
     o2 = observe(load_csv, path, **kw)
     ctx.count("csv_loaded_again")
@@ -337,6 +359,10 @@ def run(ctx):
     rnd = ctx.rnd
     if ctx.shard == 0:
         ctx.guard("realistic", check_realistic, ctx)
+        # directed case of the known finding csv-na-token (re-observed on every run while it exists)
+        ctx.guard("csv", check_csv, ctx, {"kind": "csv", "ncol": 2, "layout": ["r0", "r1"], "delim": ",", "sel": None,
+                                          "rows": [["NA", "Bob Lee"], ["None", "Bob Lee"], ["", "Bob Lee"], ["Ann", "null"]],
+                                          "weights": [1, 1, 1, 1]})
     try:
         for i in range(ctx.n(2200, 40000)):
             if ctx.expired():
